@@ -134,9 +134,16 @@ class Cfg:
         return hashlib.new(self.halgo).digest_size * 2
 
 
-def make_store(root, cfg=None):
+def make_store(root, cfg=None, real_primitives=False):
+    """A FileHashStore on `root`.  By default it is constructed over the scheduler-aware Lock / Condition
+    shims (sched.py): semantics are unchanged for single-threaded use, but a call that would WAIT (on an
+    identifier some earlier call left locked) raises sched.WouldBlockForever instead of hanging the harness."""
     cfg = cfg or Cfg()
-    return hs().FileHashStore(cfg.props(root))
+    if real_primitives:
+        return hs().FileHashStore(cfg.props(root))
+    from . import sched
+    with sched.shimmed_primitives(mp_mode=False):
+        return hs().FileHashStore(cfg.props(root))
 
 
 # ---------------------------------------------------------------------------------------------
